@@ -1052,6 +1052,118 @@ func TestBulkRebuild(t *testing.T) {
 	})
 }
 
+// TestInitRace: a write from another goroutine commits while Init is between its existence
+// checks and its commit (held there by the init.seeded hook). Whatever the store does with
+// the two, the outcome must be one a serial order explains: Init then the write, the write
+// then Init, or Init failing as a whole and the write applied; it must hold after a reopen
+// with Init called again, and the indexes must agree with the stored values.
+func TestInitRace(t *testing.T) {
+	rapid.Check(t, func(rt *rapid.T) {
+		ids := []string{"1", "2", "px"}
+		as := []string{"a", "b", "ab", ""}
+		w := Workload{Prefix: rapid.SampledFrom([]string{"", "pfx"}).Draw(rt, "prefix"), Kind: rapid.SampledFrom([]string{"typed", "map", "binary"}).Draw(rt, "kind"), Indexes: []string{"ia", "in"}}
+		for _, id := range ids {
+			if rapid.IntRange(0, 3).Draw(rt, "seeded") > 0 {
+				w.Seeds = append(w.Seeds, Op{ID: id, A: rapid.SampledFrom(as).Draw(rt, "sa"), N: rapid.IntRange(0, 9).Draw(rt, "sn")})
+			}
+		}
+		if len(w.Seeds) == 0 {
+			w.Seeds = append(w.Seeds, Op{ID: "1", A: "a", N: 1})
+		}
+		var pre []Op
+		for i := rapid.IntRange(0, 2).Draw(rt, "npre"); i > 0; i-- {
+			pre = append(pre, Op{K: "create", ID: rapid.SampledFrom(ids).Draw(rt, "pid"), A: rapid.SampledFrom(as).Draw(rt, "pa"), N: rapid.IntRange(0, 9).Draw(rt, "pn")})
+		}
+		race := Op{K: rapid.SampledFrom([]string{"create", "create", "update", "delete"}).Draw(rt, "rk"), ID: rapid.SampledFrom(ids).Draw(rt, "rid"), A: rapid.SampledFrom(as).Draw(rt, "ra"), N: 10 + rapid.IntRange(0, 9).Draw(rt, "rn")}
+		dir := bdb.TempDir("c12race")
+		defer os.RemoveAll(dir)
+		e, err := openEnv(dir, w)
+		if err != nil {
+			rt.Fatalf("VERIF-INCONCLUSIVE: %v", err)
+		}
+		s0 := state{vals: map[string]string{}}
+		for _, op := range pre {
+			err := e.apply(w, op)
+			n, ok := step(w, s0, op)
+			if ok != (err == nil) {
+				_ = e.db.Close()
+				rt.Fatalf("%+v before Init: err=%v, model ok=%v", op, err, ok)
+			}
+			s0 = n
+		}
+		var raceErr error
+		fired := false
+		badgerstore.VerifHook = func(point string, arg interface{}) {
+			if point != "init.seeded" || fired {
+				return
+			}
+			fired = true
+			done := make(chan error)
+			go func() { done <- e.apply(w, race) }()
+			raceErr = <-done
+		}
+		initErr := e.apply(w, Op{K: "init"})
+		badgerstore.VerifHook = nil
+		if !fired {
+			_ = e.db.Close()
+			rt.Fatalf("VERIF-INCONCLUSIVE: the init.seeded point was not reached")
+		}
+		// admissible outcomes
+		var adm []state
+		if initErr == nil {
+			a, _ := step(w, s0, Op{K: "init"})
+			if a2, ok := step(w, a, race); ok == (raceErr == nil) {
+				adm = append(adm, a2)
+			}
+			if b, ok := step(w, s0, race); ok == (raceErr == nil) {
+				b2, _ := step(w, b, Op{K: "init"})
+				adm = append(adm, b2)
+			}
+		} else if c, ok := step(w, s0, race); ok == (raceErr == nil) {
+			adm = append(adm, c)
+		}
+		adm = dedupe(adm)
+		check := func(when string, want []state) state {
+			obs, err := observe(e, w, ids)
+			if err != nil {
+				rt.Fatalf("%s: %v", when, err)
+			}
+			for _, s := range want {
+				if s.key() == obs.key() {
+					return obs
+				}
+			}
+			_ = e.db.Close()
+			rt.Fatalf("%s: store %s is none of the serial outcomes %v (before: %s; seeds %+v; write %+v returned %v while Init was seeding; Init returned %v)", when, obs.key(), keys(want), s0.key(), w.Seeds, race, raceErr, initErr)
+			return obs
+		}
+		check("after Init and the concurrent write", adm)
+		e.qs.Flush()
+		_ = e.db.Close()
+		if e, err = openEnv(dir, w); err != nil {
+			rt.Fatalf("database cannot be reopened: %v", err)
+		}
+		defer func() { _ = e.db.Close() }()
+		if err := e.apply(w, Op{K: "init"}); err != nil {
+			rt.Fatalf("Init after reopening failed: %v", err)
+		}
+		var adm2 []state
+		for _, s := range adm {
+			n, _ := step(w, s, Op{K: "init"})
+			adm2 = append(adm2, n)
+		}
+		obs := check("after reopening and calling Init again", dedupe(adm2))
+		if err := e.qs.RebuildIndexes(); err != nil {
+			rt.Fatalf("RebuildIndexes failed: %v", err)
+		}
+		if m := checkIndexes(e, w, obs); m != "" {
+			rt.Fatalf("after Init raced by %+v (returned %v; Init returned %v), a reopen and RebuildIndexes: %s", race, raceErr, initErr, m)
+		}
+		_, raceOK := step(w, s0, race)
+		ev.Case(raceOK || raceErr == nil, evid.Hash("race", w.String(), fmt.Sprint(pre), race), "init-race:"+race.K, fmt.Sprintf("init-err=%v", initErr != nil))
+	})
+}
+
 // ---- regression tier ------------------------------------------------------------------
 
 func TestRegressRebuildAfterInitEmptyPrefix(t *testing.T) {
